@@ -20,9 +20,14 @@ MCStrs == ShortStrs \cup ImageSet \cup {Swap12(s) : s \in ImageSet}
 (* 0 1 2 3: lengths 0..3 / literal(1) copy1(4) copy2(1) copy4(1); 4 5 6: literal(2) copy1(5)  *)
 (* copy2(2); 128: varint continuation; 240: literal with one length byte; 7: plain data       *)
 SnAlpha == {0, 1, 2, 3, 4, 5, 6, 7, 128, 240}
-(* every block shorter than MaxBlock, and the MaxBlock-byte blocks that announce 3..7 bytes *)
-MCBlocks == SeqsUpTo(SnAlpha, MaxBlock - 1)
-            \cup {<<h>> \o t : h \in 3..7, t \in [1..(MaxBlock - 1) -> SnAlpha]}
+(* every block shorter than MaxBlock, and the MaxBlock-byte blocks that announce 3..7 bytes; *)
+(* enumerated inside the next-state relation (TLC is slow at building sets of 10^5 tuples)   *)
+UnzStep(x) == Step([op |-> "unz", blk |-> x])
+BlockSteps ==
+  \/ \E k \in 0..(MaxBlock - 1) : \E x \in [1..k -> SnAlpha] : UnzStep(x)
+  \/ \E h \in 3..7 : \E t \in [1..(MaxBlock - 1) -> SnAlpha] : UnzStep(<<h>> \o t)
+MCNext == Next \/ BlockSteps
+MCSpec == Init /\ [][MCNext]_allvars
 Runs(S, lo, hi) == {[i \in 1..n |-> c] : n \in lo..hi, c \in S}
 MCBytes == SeqsUpTo({0, 1, 7}, 3) \cup Runs({1, 7}, 5, 12)
 MCPrefs == {<<>>, <<128>>, <<9, 9>>}
